@@ -1816,6 +1816,59 @@ fn st_send_stored_limit_v5() {
     core::mem::forget(c);
 }
 
+// one-packet forms of the above (the two-packet form does not finish within 50 min / 20 GB)
+fn send_stored_limit_one(pubrel: bool) {
+    set_detail(true);
+    let mut c = CC::new(Version::V5_0);
+    c.is_client = true;
+    c.status = ConnectionStatus::Connected;
+    c.need_store = true;
+    let k: u16 = kani::any();
+    kani::assume(k != 0);
+    use_ids(&mut c, &[k]);
+    let sz: u32 = if pubrel { 4 } else { 9 };
+    if pubrel {
+        c.pid_pubcomp.insert(k);
+        c.store.add(v5_0::GenericPubrel::<u16>::builder().packet_id(k).build().unwrap().try_into().unwrap()).unwrap(); // 4 bytes
+    } else {
+        c.pid_puback.insert(k);
+        c.store.add(mk_pub5(1, k, true).try_into().unwrap()).unwrap(); // 9 bytes
+    }
+    let l: u32 = kani::any();
+    kani::assume(l >= 1);
+    c.maximum_packet_size_send = l;
+    kani::cover!(l == sz - 1, "one byte too large");
+    kani::cover!(l == sz, "exactly the limit");
+    let ev = c.send_stored();
+    let mut n = 0;
+    let mut idx = 0;
+    while idx < ev.len() {
+        let e = sm(&ev, idx);
+        if e.kind == K_SEND {
+            assert!(e.pkt.size as u64 <= l as u64, "[C14] no retransmitted stored packet exceeds the peer's Maximum Packet Size");
+            n += 1;
+        }
+        idx += 1;
+    }
+    assert!(n == (l >= sz) as usize, "[C06] a stored packet within the limit is retransmitted");
+    assert!(sth::has(&c.store, k) == (l >= sz), "[C14] an oversize stored packet is dropped from the store");
+    assert!(c.pid_man.is_used_id(k) == (l >= sz), "[C14] the identifier of a dropped stored packet is released");
+    assert!(count(&ev, |e| is_released(e, k)) == (l < sz) as usize, "[C08] the release is announced exactly once");
+    core::mem::forget(ev);
+    core::mem::forget(c);
+}
+#[kani::proof]
+#[kani::unwind(2)]
+fn st_send_stored_limit_v5_pubrel() {
+    send_stored_limit_one(true)
+}
+#[kani::proof]
+#[kani::unwind(2)]
+#[kani::stub(core::str::from_utf8, utf8_model)]
+fn st_send_stored_limit_v5_publish() {
+    send_stored_limit_one(false)
+}
+
 // PUBREL sent by the application: connected (sent, PUBCOMP awaited) or queued on a persistent session while not connected
 #[kani::proof]
 #[kani::unwind(2)]
